@@ -117,9 +117,9 @@ func (s sortableByProperty) Less(i, j int) bool {
 	index := func(i int) any {
 		value := ToLiquid(s.data[i])
 		rt := reflect.ValueOf(value)
-		if rt.Kind() == reflect.Map && rt.Type().Key().Kind() == reflect.String {
-			// the key type may be a named string type
-			elem := rt.MapIndex(reflect.ValueOf(s.key).Convert(rt.Type().Key()))
+		if rt.Kind() == reflect.Map {
+			// the key type may be a named string type, or an interface type
+			elem := MapEntry(rt, s.key)
 			if elem.IsValid() {
 				// a property that is a pointer (or a drop) sorts as the value a lookup of it yields
 				return ValueOf(elem.Interface()).Interface()
